@@ -27,17 +27,17 @@ TECHNIQUE = ("runtime monitoring: contract + documentation-derived reference int
              "objects, before and after every serialisation route of the holding network")
 CASES = {"quick": 640, "thorough": 25000}
 BUDGET = {"quick": 60, "thorough": 1500}
-FLOORS = {"quick": {"nontrivial": 300, "max_skip_frac": 0.05,
-                    "tags": {"cls:Characteristic": 150, "cls:SplineCharacteristic": 150, "cls:LogSplineCharacteristic": 150,
-                             "kind:Pchip": 100, "kind:quadratic": 50, "kind:cubic": 30, "kind:linear": 30, "route:json_string": 150,
-                             "route:json_file": 80, "route:json_encrypted": 50, "route:pickle": 80, "route:deepcopy": 80,
-                             "from_gradient": 50, "from_points": 50, "called_before_save": 100, "fill_tuple": 40},
-                    "extras": {"objects": 2500, "support_points": 10000, "shape_checked": 800, "reference_evals": 300000,
-                               "roundtrip_objects": 2500}},
+FLOORS = {"quick": {"nontrivial": 320, "max_skip_frac": 0.05,
+                    "tags": {"cls:Characteristic": 270, "cls:SplineCharacteristic": 270, "cls:LogSplineCharacteristic": 270,
+                             "kind:Pchip": 260, "kind:quadratic": 100, "kind:cubic": 40, "kind:linear": 75, "route:json_string": 160,
+                             "route:json_file": 70, "route:json_encrypted": 90, "route:pickle": 160, "route:deepcopy": 160,
+                             "from_gradient": 110, "from_points": 120, "called_before_save": 180, "fill_tuple": 180},
+                    "extras": {"objects": 1750, "support_points": 9000, "shape_checked": 1100, "reference_evals": 215000,
+                               "roundtrip_objects": 3500}},
           "thorough": {"nontrivial": 12000, "max_skip_frac": 0.05,
-                       "tags": {"cls:Characteristic": 6000, "cls:SplineCharacteristic": 6000, "cls:LogSplineCharacteristic": 6000,
-                                "kind:Pchip": 4000, "route:json_string": 6000, "route:json_encrypted": 2000},
-                       "extras": {"objects": 100000, "shape_checked": 30000}}}
+                       "tags": {"cls:Characteristic": 10000, "cls:SplineCharacteristic": 10000, "cls:LogSplineCharacteristic": 10000,
+                                "kind:Pchip": 10000, "route:json_string": 6000, "route:json_encrypted": 3500},
+                       "extras": {"objects": 68000, "shape_checked": 40000}}}
 RULE = ("one case = a network with 3-8 characteristic objects (class, interpolator kind, constructor route, container type, "
         "2-9 strictly increasing x, monotone or arbitrary y drawn from the seed) + one serialisation route; non-trivial = at "
         "least one object with >= 3 support points evaluated and round-tripped; distinct = digest of all object specs + route")
